@@ -638,7 +638,7 @@ pub async fn run_scripted_receiver() {
             continue;
         }
         // one seeded disposition action
-        match choice(7) {
+        match choice(9) {
             0 | 1 => {
                 // single id, terminal, settled (first) or unsettled (second)
                 let i = choice(pending.len() as u32) as usize;
@@ -669,6 +669,28 @@ pub async fn run_scripted_receiver() {
                 disposed += k;
                 if k > 1 {
                     sim::probe("range-disposition");
+                }
+            }
+            7 | 8 => {
+                // a range whose ends are pending deliveries with the same outcome and which also
+                // covers ids that are not pending any more (pre-settled, or settled earlier): legal,
+                // the sender has no record for those and must simply skip them
+                pending.sort();
+                let i = choice(pending.len() as u32) as usize;
+                let out0 = uid_out[&pending[i].1].clone();
+                let mut j = i;
+                while j + 1 < pending.len() && uid_out[&pending[j + 1].1] == out0 {
+                    j += 1;
+                }
+                let (first, last) = (pending[i].0, pending[j].0);
+                let holes = (last.wrapping_sub(first) as usize + 1) - (j - i + 1);
+                peer.send(ps.channel, &peer::disposition(true, first, Some(last), true, Some(out0.to_v()))).await;
+                for (id, _) in pending.drain(i..=j) {
+                    settled_ids.push(id);
+                }
+                disposed += j - i + 1;
+                if holes > 0 {
+                    sim::probe("range-over-already-settled-ids");
                 }
             }
             3 => {
